@@ -50,6 +50,7 @@ type ConnSpec struct {
 	SendNote      string // wait for this note before sending the last segment
 	DialAfter     int    // virtual seconds to sleep before connecting
 	FragmentHello bool   // the TLS ClientHello leaves in three TCP segments
+	LegacyTLS     bool   // the client offers TLS 1.0-1.1 only (RSA PKI)
 	ReadFor       int    // with Read == "all": give up reading after this many virtual seconds without EOF
 	IdleAfterSend int    // virtual seconds to sleep after sending and before reading anything
 	AckAt         int    // after this many frames have been read, raise AckNote (then go on reading)
@@ -112,6 +113,9 @@ func (sp *Spec) body() {
 	}
 	if sp.Srv.StartTLS != nil {
 		w.TLSCfg = sp.Srv.StartTLS
+	}
+	if sp.Srv.LegacyTLS {
+		w.TLSCfg, _ = legacyPKI()
 	}
 	for ci := range sp.Conns {
 		for _, h := range sp.Conns[ci].H {
@@ -209,6 +213,9 @@ func runClient(w *World, ci int, name string, cs *ConnSpec) {
 	cl.Tap()
 	cl.FragmentHello = cs.FragmentHello
 	ccfg := cs.TLSCfg
+	if cs.LegacyTLS {
+		_, ccfg = legacyPKI()
+	}
 	if ccfg == nil {
 		ccfg = getPKI().ClientCfg
 	}
